@@ -399,6 +399,15 @@ type ListHandler[V any] interface {
 	AccessList(list V, index V) (V, error)
 }
 
+// ListHandlerSt is an optional extension of ListHandler. If the list handler
+// implements it, the generated code calls AccessListSt instead of AccessList and
+// passes the stack of the running evaluation. A lazy list which is evaluated by
+// the access then continues the depth count of that stack, so a runaway
+// recursion through a list access is stopped by the stack limit.
+type ListHandlerSt[V any] interface {
+	AccessListSt(st Stack[V], list V, index V) (V, error)
+}
+
 // MapHandler is used to create and access maps
 type MapHandler[V any] interface {
 	// FromMap creates a map
@@ -1108,6 +1117,7 @@ func (g *FunctionGenerator[V]) GenerateFunc(ast parser2.AST, gc GeneratorContext
 			if err != nil {
 				return nil, false, err
 			}
+			listHandlerSt, hasSt := g.listHandler.(ListHandlerSt[V])
 			return func(st Stack[V], cs []V) (V, error) {
 				i, err := indexFunc(st, cs)
 				if err != nil {
@@ -1116,6 +1126,9 @@ func (g *FunctionGenerator[V]) GenerateFunc(ast parser2.AST, gc GeneratorContext
 				l, err := listFunc(st, cs)
 				if err != nil {
 					return zero, a.EnhanceErrorf(err, "error in getting list")
+				}
+				if hasSt {
+					return listHandlerSt.AccessListSt(st, l, i)
 				}
 				return g.listHandler.AccessList(l, i)
 			}, iPure && lPure, nil
